@@ -96,12 +96,13 @@ type ctx struct {
 // Run executes the check.
 func Run(r *core.Report, env *build.Env) {
 	r.Level = "model_checking"
-	maxA, widths := 3, []int{1, 2}
+	maxA, maxText, widths := 3, 3, []int{1, 2}
 	if r.Tier == "thorough" {
+		// texts of 4 characters in four width classes did not finish within two hours: not registered
 		maxA, widths = 4, []int{1, 2, 3, 4}
 	}
 	r.Bounds["list_length"] = fmt.Sprintf("0..%d elements (second list 0..2), every element an unconstrained 64-bit number", maxA)
-	r.Bounds["text_length"] = fmt.Sprintf("0..%d characters (second text 1..2), every character symbolic within one UTF-8 width class per cell; width classes %v", maxA, widths)
+	r.Bounds["text_length"] = fmt.Sprintf("0..%d characters (second text 1..2), every character symbolic within one UTF-8 width class per cell; width classes %v", maxText, widths)
 	r.Bounds["scalars"] = "indices and counts unconstrained 64-bit unless the documented domain restricts them; Polster_* up to 2 added characters and a final length above -2^62, Auf-/Absteigende_Zahlen up to 4 numbers within +-2^62 (differences of numbers near the 64-bit limits wrap around: a matter of the language's arithmetic, C01)"
 	r.Assumptions = append(r.Assumptions,
 		"documented domain = valid 1-based indices 1..len (ranges 1 <= start <= end <= len), equal lengths for element-wise functions, non-empty texts for sub-text search; outcomes outside it are not judged",
@@ -144,6 +145,9 @@ func Run(r *core.Report, env *build.Env) {
 			continue
 		}
 		hi := maxA
+		if f.fam == "text" {
+			hi = maxText
+		}
 		if f.maxA > 0 && f.maxA < hi {
 			hi = f.maxA
 		}
